@@ -136,6 +136,7 @@ func (r *streamRun) observe() map[string]interface{} {
 
 func (r *streamRun) step(st h.Step) map[string]interface{} {
 	seq := uint64(0)
+	evBase, evWant := r.e.evrec.count(), 0
 	if st.A() != "emit" && st.A() != "burst" && st.A() != "close" {
 		seq = uint64(st.Int("seq"))
 	}
@@ -155,10 +156,12 @@ func (r *streamRun) step(st h.Step) map[string]interface{} {
 		_ = r.c.header("query", seq)
 		_ = r.c.send(map[string]interface{}{"Name": fmt.Sprintf("q%d", st.Int("n")), "Payload": []byte(strconv.Itoa(st.Int("id"))),
 			"Timeout": int64(15 * time.Millisecond), "RequestAck": false})
+		evWant = 1 // the agent sees its own query as an event
 	case "emit":
 		for _, x := range st.List("evs") {
 			ev := h.Step(x.(map[string]interface{}))
 			r.emit(ev.Str("k"), ev.Int("n"), ev.Int("id"))
+			evWant++
 		}
 	case "burst":
 		// slow client: nothing is read while m events reach the agent
@@ -192,6 +195,11 @@ func (r *streamRun) step(st h.Step) map[string]interface{} {
 		h.Die("stream: unknown action %q", st.A())
 	}
 	w := st.Int("w")
+	// the events of this step have been dispatched by the agent's event loop (ground truth recorder): a stream
+	// registered by a later step cannot see them
+	if evWant > 0 && !poll(5*time.Second, func() bool { return r.e.evrec.count() >= evBase+evWant }) {
+		h.Die("stream: the agent dispatched %d of %d events", r.e.evrec.count()-evBase, evWant)
+	}
 	poll(2*time.Second, func() bool { return r.nonLogFrames() >= w || r.c.isClosed() })
 	if st.Int("reg") == 1 {
 		// the handler is registered after the reply has been sent (deferred): wait for it
